@@ -91,6 +91,9 @@ func ruleEveryStreamSaved(c *Ctx, r *Rule) {
 	name := c.fnName(saver)
 	loops := 0
 	for _, fn := range append([]*ssa.Function{saver}, allAnon(saver)...) {
+		// element reads of Job.offsets, grouped by the innermost loop around them
+		group := map[*ssa.BasicBlock][]ssa.Value{}
+		var order []*ssa.BasicBlock
 		for _, b := range fn.Blocks {
 			for _, in := range b.Instrs {
 				var elem ssa.Value
@@ -107,77 +110,96 @@ func ruleEveryStreamSaved(c *Ctx, r *Rule) {
 				if !ok || !isField(o, f, fileInPkg, "Job", "offsets") {
 					continue
 				}
-				// innermost loop header around the element read
 				var header *ssa.BasicBlock
-				for h := b; h != nil; h = h.Idom() {
-					isHdr := false
+				for h := b; h != nil && header == nil; h = h.Idom() {
 					for _, p := range h.Preds {
-						if h.Dominates(p) && (b == p || b.Dominates(p) || reaches(b, p)) {
-							isHdr = true
+						if h.Dominates(p) && reaches(b, p) {
+							header = h
 						}
-					}
-					if isHdr {
-						header = h
-						break
 					}
 				}
 				if header == nil {
 					continue
 				}
-				loops++
-				r.Inst(1)
-				inLoop := func(bb *ssa.BasicBlock) bool { return header.Dominates(bb) && reaches(bb, header) }
-				// formatting sites of the element inside the loop
-				var nameSites, offSites []ssa.Instruction
-				for _, bb := range fn.Blocks {
-					if !inLoop(bb) {
-						continue
+				if _, seen := group[header]; !seen {
+					order = append(order, header)
+				}
+				group[header] = append(group[header], elem)
+			}
+		}
+		for _, header := range order {
+			elems := group[header]
+			loops++
+			r.Inst(1)
+			pos := elems[0].Pos()
+			inLoop := func(bb *ssa.BasicBlock) bool { return header.Dominates(bb) && reaches(bb, header) }
+			dep := func(v ssa.Value, field string) bool {
+				for _, e := range elems {
+					if dependsOnField(v, e, field, 0, map[ssa.Value]bool{}) {
+						return true
 					}
-					for _, j := range bb.Instrs {
-						var vals []ssa.Value
-						switch y := j.(type) {
-						case *ssa.Store:
-							if o2, f2, _, ok2 := fieldOf(y.Addr); ok2 && isField(o2, f2, fileInPkg, "offsetDB", "buf") {
-								vals = append(vals, y.Val)
-							}
-						case *ssa.Call:
-							if cf := calleeFunc(y); cf != nil && c.inModule(cf) {
+				}
+				return false
+			}
+			// formatting sites of the element inside the loop: an append / strconv.Append* / call of a
+			// module function (loggers excluded) that takes a value of the element's field, or a store of
+			// such a value into the snapshot buffer
+			var nameSites, offSites []ssa.Instruction
+			for _, bb := range fn.Blocks {
+				if !inLoop(bb) {
+					continue
+				}
+				for _, j := range bb.Instrs {
+					var vals []ssa.Value
+					switch y := j.(type) {
+					case *ssa.Store:
+						if o2, f2, _, ok2 := fieldOf(y.Addr); ok2 && isField(o2, f2, fileInPkg, "offsetDB", "buf") {
+							vals = append(vals, y.Val)
+						}
+					case *ssa.Call:
+						if _, isApp := isBuiltinCall(y, "append"); isApp {
+							vals = append(vals, y.Call.Args...)
+						} else if cf := calleeFunc(y); cf != nil && cf.Pkg != nil {
+							pp := cf.Pkg.Pkg.Path()
+							if (pp == "strconv" && len(cf.Name()) > 6 && cf.Name()[:6] == "Append") || (c.inModule(cf) && pp != modulePath+"/logger") {
 								vals = append(vals, y.Call.Args...)
 							}
 						}
-						for _, v := range vals {
-							if dependsOnField(v, elem, "Stream", 0, map[ssa.Value]bool{}) {
-								nameSites = append(nameSites, j)
-							}
-							if dependsOnField(v, elem, "Offset", 0, map[ssa.Value]bool{}) {
-								offSites = append(offSites, j)
-							}
+					}
+					for _, v := range vals {
+						if dep(v, "Stream") {
+							nameSites = append(nameSites, j)
+						}
+						if dep(v, "Offset") {
+							offSites = append(offSites, j)
 						}
 					}
 				}
-				toHeader := func(i ssa.Instruction) bool { return i.Block() == header && instrIndex(i) == 0 }
-				check := func(sites []ssa.Instruction, what string) {
-					if len(sites) == 0 {
-						r.Ob(false, name+"|stream-"+what+"-formatted", in.Pos(), "the loop over Job.offsets formats the "+what+" of the element into the snapshot buffer")
-						return
-					}
-					isSite := func(i ssa.Instruction) bool {
-						for _, s := range sites {
-							if s == i {
-								return true
-							}
-						}
-						return false
-					}
-					skip, _ := c.pathExists(fn, in, toHeader, isSite)
-					r.Ob(!skip, name+"|stream-"+what+"-on-every-path", in.Pos(), fmt.Sprintf("every path from the element read to the next iteration formats the stream's %s (%d formatting sites): a stream filtered out of a saved job is resumed from the default, and a job saved without streams cannot be initialised after a restart", what, len(sites)))
-				}
-				check(nameSites, "name")
-				check(offSites, "offset")
 			}
+			toHeader := func(i ssa.Instruction) bool { return i.Block() == header && instrIndex(i) == 0 }
+			stay := func(bb *ssa.BasicBlock, i int) bool { return inLoop(bb.Succs[i]) }
+			from := header.Instrs[len(header.Instrs)-1]
+			check := func(sites []ssa.Instruction, what string) {
+				if len(sites) == 0 {
+					r.Ob(false, name+"|stream-"+what+"-formatted", pos, "the loop over Job.offsets formats the "+what+" of the element into the snapshot buffer")
+					return
+				}
+				isSite := func(i ssa.Instruction) bool {
+					for _, s := range sites {
+						if s == i {
+							return true
+						}
+					}
+					return false
+				}
+				skip, _ := c.pathExistsE(fn, from, toHeader, isSite, stay)
+				r.Ob(!skip, name+"|stream-"+what+"-on-every-path", pos, fmt.Sprintf("every path through the body of the loop over Job.offsets formats the stream's %s (%d formatting sites): a stream filtered out of a saved job is resumed from the default, and a job saved without streams cannot be initialised after a restart", what, len(sites)))
+			}
+			check(nameSites, "name")
+			check(offSites, "offset")
 		}
 	}
-	r.Ob(loops >= 1, name+"|stream-loop", saver.Pos(), fmt.Sprintf("the saver iterates over Job.offsets (%d element reads)", loops))
+	r.Ob(loops >= 1, name+"|stream-loop", saver.Pos(), fmt.Sprintf("the saver iterates over Job.offsets (%d loops)", loops))
 	_ = token.NoPos
 }
 
